@@ -246,6 +246,61 @@ pub fn run(tier: &str) -> Result<Report, String> {
         }
         rep.set("wide_models", json!(big));
     }
+    // the multi-formula extended entry points: every ordered list of 2..4 distinct formulae of a pool of five extended formulae of
+    // five different heights; every position must carry the meaning of ITS formula (explicit-state oracle), whatever the order
+    {
+        use biodivine_hctl_model_checker::model_checking as mc;
+        let mut n_lists = 0u64;
+        for b in nets.iter().filter(|b| ["con2", "imp1"].contains(&b.name.as_str())) {
+            let fam = label_families(b, 1).pop().unwrap();
+            let ctx = NetCtx::new(b.clone(), fam.1, &fam.0);
+            let pool: Vec<crate::formulas::F> = ["~ %p%", "3{x} in %d%: (@{x}: %p%)", "AX (V{x} in %d%: (@{x}: %p%))", "%p% & (EF (!{x} in %e%: AX ({x} | %q%)))", "%q%"].iter().map(|t| crate::formulas::f(t, &ctx.user)).collect();
+            let texts: Vec<String> = pool.iter().map(|f| f.show(&ctx.user)).collect();
+            let expected: Vec<Vec<crate::bridge::Mask>> = pool.iter().map(|f| ctx.expected(f)).collect();
+            let mut lists: Vec<Vec<usize>> = vec![];
+            fn perms(pool: usize, len: usize, cur: &mut Vec<usize>, out: &mut Vec<Vec<usize>>) {
+                if cur.len() == len {
+                    out.push(cur.clone());
+                    return;
+                }
+                for i in 0..pool {
+                    if !cur.contains(&i) {
+                        cur.push(i);
+                        perms(pool, len, cur, out);
+                        cur.pop();
+                    }
+                }
+            }
+            for len in 2..=4 {
+                perms(pool.len(), len, &mut vec![], &mut lists);
+            }
+            n_lists += lists.len() as u64;
+            for l in &lists {
+                let ts: Vec<&str> = l.iter().map(|i| texts[*i].as_str()).collect();
+                for (entry, r) in [
+                    ("model_check_multiple_extended_formulae_dirty", crate::report::guarded(std::panic::AssertUnwindSafe(|| mc::model_check_multiple_extended_formulae_dirty(ts.clone(), &b.graph, &ctx.sets)))),
+                    ("model_check_multiple_extended_formulae", crate::report::guarded(std::panic::AssertUnwindSafe(|| mc::model_check_multiple_extended_formulae(ts.clone(), &b.graph, &ctx.sets)))),
+                ] {
+                    let what = match r {
+                        Ok(Ok(v)) if v.len() == l.len() => l.iter().enumerate().find_map(|(pos, i)| {
+                            let d = if entry.ends_with("_dirty") { ctx.diff_dirty(&v[pos], &expected[*i]) } else { ctx.diff_canonical(&v[pos], &expected[*i]) };
+                            d.map(|d| format!("position {pos} ({}) does not carry the meaning of its formula: {d}", texts[*i]))
+                        }),
+                        Ok(Ok(v)) => Some(format!("{} results for {} formulae", v.len(), l.len())),
+                        Ok(Err(e)) => Some(format!("Err({e})")),
+                        Err(p) => Some(format!("panic: {p}")),
+                    };
+                    if let Some(w) = what {
+                        if rep.violations.len() < 300 {
+                            rep.violations.push(Violation { case: json!({"kind": "none"}), what: format!("{entry}({ts:?}) on {} labels=mixed: {w}", b.name), size: 40 + l.len() });
+                        }
+                    }
+                }
+            }
+        }
+        rep.evaluations += n_lists * 2;
+        slices.push(json!({"part": "ordered lists of 2..4 distinct extended formulae of different heights through the multi-formula entry points", "lists": n_lists}));
+    }
     // two-step histories (state carried between calls): warm-up with domain-restricted quantifiers on a look-alike graph
     {
         let units: Vec<_> = nets.iter().filter(|b| b.name == "con2").cloned().collect();
